@@ -145,6 +145,8 @@ pub struct BBook {
     /// physical order of the sheet substreams after the globals (indices into `sheets`); empty = BoundSheet8 order.
     /// BoundSheet8.lbPlyPos points at each substream wherever it is.
     pub substream_order: Vec<usize>,
+    /// FORMAT strings stored 16-bit (fHighByte = 1) even when compressible
+    pub formats_wide: bool,
 }
 
 pub fn bof(dt: u16) -> Vec<u8> {
@@ -178,7 +180,7 @@ pub fn workbook_stream(b: &BBook) -> Vec<u8> {
         if let Some((fp, 1)) = &b.filepass { g.extend(rec(0x002F, fp)); }
         g.extend(rec(0x0042, &1200u16.to_le_bytes()));
         if b.date1904 { g.extend(rec(0x0022, &1u16.to_le_bytes())); } else { g.extend(rec(0x0022, &0u16.to_le_bytes())); }
-        for (ifmt, code) in &b.formats { let mut d = ifmt.to_le_bytes().to_vec(); d.extend(xl_str(code, false)); g.extend(rec(0x041E, &d)); }
+        for (ifmt, code) in &b.formats { let mut d = ifmt.to_le_bytes().to_vec(); d.extend(xl_str(code, b.formats_wide)); g.extend(rec(0x041E, &d)); }
         let xfs: Vec<u16> = if b.xfs.is_empty() { vec![0] } else { b.xfs.clone() };
         for ifmt in xfs { let mut d = 0u16.to_le_bytes().to_vec(); d.extend(ifmt.to_le_bytes()); d.extend([0u8; 16]); g.extend(rec(0x00E0, &d)); }
         for (s, off) in b.sheets.iter().zip(offsets) {
@@ -264,7 +266,8 @@ pub fn sst_records_whole(strings: &[String], total_refs: u32) -> Vec<u8> {
 pub fn sst_records(ch: &mut Chooser, strings: &[SstString], total_refs: u32) -> Vec<u8> {
     let mut atoms: Vec<(Atom, CutKind)> = vec![];
     for (i, s) in strings.iter().enumerate() {
-        atoms.push((Atom::Header(i), if i == 0 { CutKind::No } else { CutKind::Plain }));
+        // a cut before the first string leaves only the 8-byte table header in the SST record itself
+        atoms.push((Atom::Header(i), CutKind::Plain));
         let u = utf16(&s.text);
         let mut k = 0;
         let mut first = true;
